@@ -71,7 +71,7 @@ def resolve_names(node):
         binding = get_binding(node.id, node.namespace)
         binding.add_reference(node)
 
-        if isinstance(node.ctx, ast.Store) and isinstance(node.namespace, ast.ClassDef):
+        if isinstance(node.ctx, (ast.Store, ast.Del)) and isinstance(node.namespace, ast.ClassDef):
             binding.disallow_rename()
             disallow_global_rename(node.id, node.namespace)
 
